@@ -438,6 +438,13 @@ func (g *TmGen) Run(nOps int, caseIdx int) {
 		if res != "ok" && before != after {
 			w.hit("C07", "rejected-update-changed-client-state")
 		}
+		if res == "ok" {
+			st := ck.ClientStore(c.GetContext(), name)
+			if cons, err := ibctmtypes.GetConsensusState(st, c.App.AppCodec(), hHeight); err != nil || !cons.Timestamp.Equal(ht) ||
+				string(cons.Root.Hash) != string(spec.appHash) || string(cons.NextValidatorsHash) != string(hdr.Header.NextValidatorsHash) {
+				w.hit("C07", fmt.Sprintf("accepted-header-but-the-consensus-state-stored-at-its-height-is-not-the-header's height=%s", hstr(hHeight)))
+			}
+		}
 		if lb, la := latestOfDump(before), latestOfDump(after); la.LT(lb) {
 			w.hit("C07", fmt.Sprintf("latest-height-decreased-by-a-header-update %s->%s header=%s", hstr(lb), hstr(la), hstr(hHeight)))
 		}
